@@ -330,6 +330,39 @@ pub fn echo_shapes(_seed: u64) -> Vec<LargeInput> {
     out
 }
 
+/// staggered repeats: each nesting level has exactly one new unique anchor and the remaining
+/// gap shrinks by two items per level (deep anchor recursion); the first item is edited
+pub fn staggered(_seed: u64) -> Vec<LargeInput> {
+    fn build(head: u32, m: u32, k: u32) -> Vec<u32> {
+        let b = |i: u32| 1_000_000 + i;
+        let a = |i: u32| 2_000_000 + i;
+        let mut rv = vec![head];
+        rv.extend((1..=m).map(b));
+        rv.extend((1..=m).map(b));
+        rv.push(a(k));
+        rv.push(b(1));
+        for j in (1..k).rev() {
+            rv.push(a(j));
+            rv.push(a(j + 1));
+        }
+        rv
+    }
+    let mut out = vec![];
+    for &(m, k) in &[(1u32, 30u32), (1, 100), (50, 60), (400, 150), (1500, 300)] {
+        let base = build(1, m, k);
+        out.push(LargeInput { name: format!("staggered-m{}-k{}-first-replaced", m, k), old: base.clone(), new: build(2, m, k) });
+        out.push(LargeInput { name: format!("staggered-m{}-k{}-first-deleted", m, k), old: base.clone(), new: base[1..].to_vec() });
+        let mut v = base.clone();
+        let n = v.len();
+        v[n - 1] = 7;
+        out.push(LargeInput { name: format!("staggered-m{}-k{}-last-replaced", m, k), old: base.clone(), new: v });
+        let mut v = base.clone();
+        v.insert(n / 2, 7);
+        out.push(LargeInput { name: format!("staggered-m{}-k{}-middle-insert", m, k), old: base, new: v });
+    }
+    out
+}
+
 /// thousands of small hunks (more raw ops than any batch / window / buffer size one might
 /// pick), many of them insertions of a duplicate that Compact has to slide
 pub fn many_hunks(_seed: u64) -> Vec<LargeInput> {
@@ -384,6 +417,23 @@ pub fn lcs_big() -> Vec<LargeInput> {
             old: std::iter::once(1).chain((0..1030u32).map(|i| 10_000 + i)).chain(std::iter::once(2)).collect(),
             new: std::iter::once(1).chain((0..1030u32).map(|i| 20_000 + i)).chain(std::iter::once(2)).collect(),
         },
+        // one side longer than 2^16 after stripping, the short side's items sit at both ends of
+        // the long side in conflicting order (narrow table coordinates would alias)
+        LargeInput {
+            name: "lcsbig-65536x3-ends-conflict".into(),
+            old: [1u32, 1].iter().copied().chain((0..65_533u32).map(|i| 10_000 + i)).chain(std::iter::once(2)).collect(),
+            new: vec![2, 1, 1],
+        },
+        LargeInput {
+            name: "lcsbig-3x65537-ends-conflict".into(),
+            old: vec![2, 1, 1],
+            new: [1u32, 1].iter().copied().chain((0..65_534u32).map(|i| 10_000 + i)).chain(std::iter::once(2)).collect(),
+        },
+        LargeInput {
+            name: "lcsbig-70000x4-ends-conflict".into(),
+            old: [1u32, 3, 1].iter().copied().chain((0..69_995u32).map(|i| 10_000 + i)).chain([2u32, 3].iter().copied()).collect(),
+            new: vec![2, 3, 1, 1],
+        },
         LargeInput {
             name: "lcsbig-4100x4100-unrelated".into(),
             old: (0..4100u32).map(|i| 10_000 + i).collect(),
@@ -425,10 +475,14 @@ pub fn all(tier: Tier, seed: u64) -> Vec<LargeInput> {
     v.extend(mixed_shapes(seed));
     v.extend(many_hunks(seed));
     v.extend(echo_shapes(seed));
+    v.extend(staggered(seed));
     v
 }
 
 pub fn find(name: &str, seed: u64) -> Option<LargeInput> {
+    if name.starts_with("staggered-") {
+        return staggered(seed).into_iter().find(|f| f.name == name);
+    }
     if name.starts_with("echo-") {
         return echo_shapes(seed).into_iter().find(|f| f.name == name);
     }
@@ -464,6 +518,7 @@ pub fn describe(tier: Tier) -> serde_json::Value {
         "bases": BASES,
         "threshold_sweep": "sizes T-1..T+2 for T in 16,32,64,100,128,256,512,1024 x {distinct, period 3} x 8 edits at the ends / middle",
         "mixed_shapes": "sizes 40,150,400 x {distinct, 5-symbol random, nested repetition} x {three kinds of edits far apart, moved block with a substitution inside, periodic deletes and duplicates, doubled, halved, inner third reversed}",
+        "staggered": "staggered repeats (one new unique anchor per nesting level, 30..300 levels) with the first / last item edited",
         "echo_shapes": "common head (0..300 items) and tail whose last/first items reappear once in the changed middle of both sides, crossing 1 or 3 unique items",
         "many_hunks": "4500 / 9000 items x {distinct, period 2, runs of three} x {every 3rd duplicated, duplicates removed, every 4th substituted, every 5th deleted + neighbour copied}: thousands of hunks",
         "many_unique": "300/520/700 blocks S_i M_i 0 0 0 vs S_i 0 0 0 M_i; 1100/2100 distinct items with 20 substitutions or two interleaved halves",
